@@ -9,6 +9,8 @@ CONSTANTS
   UncOffs = {}
   UncPrecs = {}
   Units = {}
+  Convs = {}
+  UncSrcs = {"arg"}
   RomanMax = 3999
 INVARIANT TypeOK
 INVARIANT RoundCarries
